@@ -8,8 +8,8 @@ Line-protocol driver for the C01 model (model files only).  One program per line
 
   T  ::= T<k> atom…          atom ::= i | s | b | n | o | c<id>
   E  ::= I n | S k c… | B 0|1 | N | V x | A E f | M E m k E… | F f k E… | C c k E… | Q x c | Z x neg
-       | ! E | & E E | "|" E E | = E E | + E E | P k E
-  ST ::= pass | D x E | X x E | W E f E | E E | R E | IF E ST ST | WH E ST | SQ ST ST
+       | ! E | & E E | "|" E E | = E E | + E E | - E E | < E E | P k E
+  ST ::= pass | D x E | X x E | W E f E | E E | R E | IF E ST ST | WH E ST | SQ ST ST | BR | CT
   FN ::= fn <k> T… <k> T… T ST
 
 Output, one line:  `wf=<0|1> tc=<ok|type k|unsupported k|hole k|stuck k|fuel> tm=<k>:<atoms>;… || <call>;;<call>…`
@@ -69,6 +69,8 @@ partial def pExpr : Parser Expr
   | "|" :: r => do let (a, r) ← pExpr r; let (b, r) ← pExpr r; pure (.or a b, r)
   | "=" :: r => do let (a, r) ← pExpr r; let (b, r) ← pExpr r; pure (.eq a b, r)
   | "+" :: r => do let (a, r) ← pExpr r; let (b, r) ← pExpr r; pure (.add a b, r)
+  | "-" :: r => do let (a, r) ← pExpr r; let (b, r) ← pExpr r; pure (.sub a b, r)
+  | "<" :: r => do let (a, r) ← pExpr r; let (b, r) ← pExpr r; pure (.lt a b, r)
   | "P" :: r => do let (k, r) ← pNat r; let (e, r) ← pExpr r; pure (.probe k e, r)
   | _ => none
 
@@ -84,6 +86,8 @@ partial def pStmt : Parser Stmt
     let (c, r) ← pExpr r; let (t, r) ← pStmt r; let (e, r) ← pStmt r; pure (.ite c t e, r)
   | "WH" :: r => do let (c, r) ← pExpr r; let (b, r) ← pStmt r; pure (.while c b, r)
   | "SQ" :: r => do let (a, r) ← pStmt r; let (b, r) ← pStmt r; pure (.seq a b, r)
+  | "BR" :: r => some (.brk, r)
+  | "CT" :: r => some (.cont, r)
   | _ => none
 
 def pFunc : Parser FuncDef
